@@ -28,8 +28,28 @@ def main(tier, seed):
     fams = {}
     for j in jobs:
         if j.status != "ok":
-            rep.job_problem(j)
-            continue
+            sc = j.stalled_case or {}
+            if j.status == "timeout" and sc.get("instance") is not None and sc.get("config_index") is not None:
+                rj = Job("framework.props.shippedrun", "replay_stalled",
+                         {"instance": sc["instance"], "config_index": sc["config_index"]}, mode="interp", timeout=900)
+                common.run_jobs([rj])
+                rep.count("stalled_jobs")
+                grew = [f for f in (rj.result or {}).get("fails", []) if f["kind"] in (
+                    "domain_grew_during_pass", "empty_domain_after_consistent_pass")] if rj.status == "ok" else []
+                if grew:
+                    rep.violation({"prop": "C20", "kind": "search_does_not_terminate:" + grew[0]["kind"],
+                                   "instance": sc["instance"], "config_index": sc["config_index"], "mode": "interp",
+                                   "detail": "%s configuration #%d did not return in compiled mode; replayed under "
+                                             "interpretation: %s; the run ended with: %s" % (
+                                                 sc["instance"], sc["config_index"], grew[0]["detail"],
+                                                 rj.result["outcome"])})
+                else:
+                    rep.job_problem(j)
+                if not j.result:
+                    continue
+            else:
+                rep.job_problem(j)
+                continue
         r = j.result
         rep.evaluations += r["evals"]
         distinct.update(r["nontrivial"])
